@@ -94,6 +94,35 @@ PROPS = {
         "families": [("life", 250, 2500)],
         "relevant": r'"op":"(drop|upgrade|downgrade)"', "relevant_min": 1,
     },
+    "C06": {
+        "invariants": ["C06", "C17_ValueIffGraceful", "C14"],
+        "mc": {"quick": [mc("Fail-own-2x2", ops=("send", "call", "await", "join", "stopped"), scripts="ScriptsFail", cfgs="CfgsFailOwn", kinds="InitKindsOwn",
+                            faults=("cancel",), maxfaults=1, must_cover=("Cancel", "ScriptStep", "JoinReturn", "AwaitReturn"))],
+               "thorough": [mc("Fail-own-2x3", maxops=3, ops=("send", "call", "await", "join", "stopped", "ping"), scripts="ScriptsFail", cfgs="CfgsFailOwn", kinds="InitKindsOwn", faults=("cancel",), maxfaults=1),
+                            mc("Fail-3x2", clients=C3, ops=("send", "call", "await", "halt", "upgrade"), scripts="ScriptsFail", cfgs="CfgsFail", kinds="InitKindsAW", faults=("cancel",), maxfaults=2)]},
+        "families": [("fail", 300, 3000)],
+        "relevant": r'"how":"panic"|"ev":"cancel"|"e":"err"|h_abandon', "relevant_min": 1,
+    },
+    "C07": {
+        "invariants": ["C07", "C03"],
+        "mc": {"quick": [mc("Restart-1x3", clients=("c1",), maxops=3, ops=("send", "call", "restart"), scripts="ScriptsRestart", cfgs="CfgsStrat2", must_cover=("RestartTaken", "RestartStopped", "RestartRefresh", "RestartStarted")),
+                         mc("Restart-2x2", ops=("send", "restart"), scripts="ScriptsPlain", cfgs="CfgsStrat2", must_cover=("RestartTaken", "RestartRefresh"))],
+               "thorough": [mc("Restart-2x3", maxops=3, ops=("send", "call", "restart", "stop"), scripts="ScriptsRestart", cfgs="CfgsStrat2"),
+                            mc("Restart-3x2", clients=C3, ops=("send", "call", "restart"), scripts="ScriptsRestart", cfgs="CfgsStrat2", kinds="InitKindsSC")]},
+        "families": [("restart", 300, 3000)],
+        "relevant": r'"op":"restart"|ctx_restart', "relevant_min": 1,
+    },
+    "C11": {
+        "invariants": ["C11", "C02"],
+        "mc": {"quick": [mc("Timeout-1x3", clients=("c1",), maxops=3, ops=("send", "call"), scripts="ScriptsSleep", cfgs="CfgsTmo", horizon=8, must_cover=("TimeoutFire", "Advance", "HandleEnd")),
+                         mc("Timeout-2x1", maxops=1, ops=("send", "call"), scripts="ScriptsSleep2", cfgs="CfgsTmo", horizon=8, must_cover=("TimeoutFire", "Advance", "HandleEnd")),
+                         mc("NoTimeout-1x3", clients=("c1",), maxops=3, ops=("send", "call"), scripts="ScriptsSleep", cfgs="CfgsNoTmo", horizon=8, must_cover=("Advance", "HandleEnd"))],
+               "thorough": [mc("Timeout-2x2", ops=("send", "call"), scripts="ScriptsSleep", cfgs="CfgsTmo", horizon=8),
+                            mc("Timeout-1x4", clients=("c1",), maxops=4, ops=("send", "call", "stop"), scripts="ScriptsSleep2", cfgs="CfgsTmo", horizon=12),
+                            mc("NoTimeout-2x2", ops=("send", "call"), scripts="ScriptsSleep", cfgs="CfgsNoTmo", horizon=8)]},
+        "families": [("timeout", 300, 3000)],
+        "relevant": r'h_abandon|"e":"sleep"', "relevant_min": 1,
+    },
     "C12": {
         "invariants": ["C12"],
         "mc": {"quick": [mc("Core-addr-2x2", must_cover=SUBMIT), mc("Core-b-2x2", kinds="InitKindsSC", cfgs="CfgsB1", ops=("send", "call", "stop"))],
